@@ -83,3 +83,23 @@ Definition setups_ok (l : list (string * string * Z)) : bool :=
 (* every per-point output of a method that lets the wrapper sort is listed in sort_keys *)
 Definition rows_of (dim m : string) (rows : list row) : list row :=
   filter (fun r => String.eqb (r_dim r) dim && String.eqb (r_method r) m) rows.
+
+(* _register.inner as read from the source (tools/gen_orderflow.py: wrapper_io): the test guarding the sort of the
+   data on entry and the expression handed to _return_results as skip_sorting on exit.  [wrapperN] (C02/Model.v)
+   is the model of exactly these: entry iff the data is present and the DECORATOR's flag is off, exit depending on
+   the decorator's flag only -- so a method called without data on unsorted x still gets its baseline un-sorted. *)
+Definition expected_wrapper_io : list (string * string * string) :=
+  [("1d", "input_y and (not skip_sorting)", "skip_sorting");
+   ("2d", "not skip_sorting", "skip_sorting")]%string.
+
+Fixpoint str3_list_eqb (a b : list (string * string * string)) : bool :=
+  match a, b with
+  | [], [] => true
+  | (a1, a2, a3) :: a', (b1, b2, b3) :: b' =>
+      String.eqb a1 b1 && String.eqb a2 b2 && String.eqb a3 b3 && str3_list_eqb a' b'
+  | _, _ => false
+  end.
+
+(* methods whose data argument may be None must be ones the wrapper un-sorts (not skip_sorting) *)
+Definition wrapper_io_ok (io : list (string * string * string)) (data_optional : list (string * string * bool)) : bool :=
+  str3_list_eqb io expected_wrapper_io && forallb (fun t => negb (snd t)) data_optional.
